@@ -262,23 +262,34 @@ pub fn plan(prop: &str, tier: Tier) -> Option<Plan> {
             s2::add_lane_phase(&mut p, q, &BACKENDS);
             s3::add_grids(&mut p, q, false);
             s2::add_long_fields(&mut p, q, &BACKENDS, &[]);
+            s2::add_page_boundary_sweep(&mut p, q, &BACKENDS, &[]);
+            s2::add_token_grids(&mut p, q, true, true, true);
+            s2::add_header_count_sweep(&mut p, q);
+            s2::add_line_strings(&mut p, q, &all_config_lanes(), &[2]);
             s8::add_families(&mut p, q);
         }
         "C02" => {
             p.armed = O_STREAM;
-            all_areas(&mut p, "C02", &all_hdr, &[0, 1, 2, 16], if q { 6 } else { 8 }, if q { 4 } else { 6 }, if q { 5 } else { 7 }, if q { 1 } else { 2 }, &multi_req, &multi_resp);
+            all_areas(&mut p, "C02", &all_hdr, &[0, 1, 2, 16], if q { 6 } else { 8 }, if q { 4 } else { 6 }, if q { 5 } else { 7 }, 1, &multi_req, &multi_resp);
             stretched(&mut p, "C02", &all_hdr, &[9, 17, 33], if q { 4 } else { 5 }, if q { 3 } else { 4 }, &multi_req, &multi_resp, &BACKENDS);
             s2::add_prefix_sweep(&mut p, q, &BACKENDS);
             s2::add_field_prefix_sweep(&mut p, q, &BACKENDS);
             s2::add_long_fields(&mut p, q, &BACKENDS, &[]);
+            s2::add_page_boundary_sweep(&mut p, q, &BACKENDS, &[]);
         }
         "C03" => {
             p.armed = O_FRAMING;
             s2::add_whitespace_run_sweep(&mut p, q);
             s2::add_repetition_sweep(&mut p, q);
             all_areas(&mut p, "C03", &all_hdr, &[0, 1, 2, 16], if q { 6 } else { 8 }, if q { 4 } else { 6 }, if q { 5 } else { 7 }, 1, &multi_req, &multi_resp);
+            s2::add_chunk_sweeps(&mut p, q);
+            s8::add_families(&mut p, q);
             s2::add_template_mutations(&mut p, q, &[Backend::Native]);
             s2::add_long_fields(&mut p, q, &BACKENDS, &[]);
+            s2::add_page_boundary_sweep(&mut p, q, &BACKENDS, &[]);
+            s2::add_token_grids(&mut p, q, true, true, true);
+            s2::add_header_count_sweep(&mut p, q);
+            s2::add_line_strings(&mut p, q, &all_config_lanes(), &[2]);
         }
         "C04" => {
             p.armed = O_ZEROCOPY;
@@ -289,6 +300,10 @@ pub fn plan(prop: &str, tier: Tier) -> Option<Plan> {
             s2::add_template_mutations(&mut p, q, &[Backend::Native]);
             s8::add_families(&mut p, q);
             s2::add_long_fields(&mut p, q, &BACKENDS, &[]);
+            s2::add_page_boundary_sweep(&mut p, q, &BACKENDS, &[]);
+            s2::add_token_grids(&mut p, q, true, true, true);
+            s2::add_header_count_sweep(&mut p, q);
+            s2::add_line_strings(&mut p, q, &all_config_lanes(), &[2]);
         }
         "C05" => {
             p.armed = O_HYGIENE;
@@ -300,6 +315,10 @@ pub fn plan(prop: &str, tier: Tier) -> Option<Plan> {
             s2::add_pair_sweeps(&mut p, q, &BACKENDS, &[]);
             s2::add_utf8_sweep(&mut p, q, &BACKENDS);
             s2::add_long_fields(&mut p, q, &BACKENDS, &[]);
+            s2::add_page_boundary_sweep(&mut p, q, &BACKENDS, &[]);
+            s2::add_token_grids(&mut p, q, true, true, true);
+            s2::add_header_count_sweep(&mut p, q);
+            s2::add_line_strings(&mut p, q, &all_config_lanes(), &[2]);
         }
         "C06" => {
             p.armed = O_LANG;
@@ -327,6 +346,8 @@ pub fn plan(prop: &str, tier: Tier) -> Option<Plan> {
             s2::add_utf8_sweep(&mut p, q, &BACKENDS);
             s2::add_templates_for(&mut p, q, &BACKENDS, "request");
             s2::add_long_fields(&mut p, q, &BACKENDS, &["method", "target"]);
+            s2::add_page_boundary_sweep(&mut p, q, &BACKENDS, &["method", "target"]);
+            s2::add_token_grids(&mut p, q, true, false, false);
         }
         "C07" => {
             p.armed = O_LANG;
@@ -353,6 +374,8 @@ pub fn plan(prop: &str, tier: Tier) -> Option<Plan> {
             s2::add_pair_sweeps(&mut p, q, &BACKENDS, &["reason"]);
             s2::add_templates_for(&mut p, q, &BACKENDS, "response");
             s2::add_long_fields(&mut p, q, &BACKENDS, &["reason"]);
+            s2::add_page_boundary_sweep(&mut p, q, &BACKENDS, &["reason"]);
+            s2::add_token_grids(&mut p, q, false, true, false);
         }
         "C08" => {
             p.armed = O_LANG;
@@ -370,8 +393,11 @@ pub fn plan(prop: &str, tier: Tier) -> Option<Plan> {
             }
             s2::add_field_sweeps(&mut p, q, &BACKENDS, &["header-name", "header-value"]);
             s2::add_pair_sweeps(&mut p, q, &BACKENDS, &["header-name", "header-value"]);
+            s2::add_token_grids(&mut p, q, false, false, true);
+            s2::add_line_strings(&mut p, q, &def_hdr, &[4]);
             s2::add_templates_for(&mut p, q, &BACKENDS, "headers");
             s2::add_long_fields(&mut p, q, &BACKENDS, &["header-name", "header-value"]);
+            s2::add_page_boundary_sweep(&mut p, q, &BACKENDS, &["header-name", "header-value"]);
         }
         "C09" => {
             p.armed = O_LANG | O_FRAMING;
@@ -383,13 +409,17 @@ pub fn plan(prop: &str, tier: Tier) -> Option<Plan> {
             s2::add_chunk_sweeps(&mut p, q);
             s2::add_pair_sweeps(&mut p, q, &[Backend::Native], &["chunk-ext"]);
             s2::add_long_fields(&mut p, q, &[Backend::Native], &["chunk-ext"]);
+            s2::add_page_boundary_sweep(&mut p, q, &[Backend::Native], &["chunk-ext"]);
         }
         "C10" => {
             p.armed = O_ERRKIND;
             all_areas(&mut p, "C10", &all_hdr, &[0, 1, 2], if q { 6 } else { 8 }, if q { 4 } else { 6 }, 2, 0, &multi_req, &multi_resp);
             s2::add_template_mutations(&mut p, q, &[Backend::Native]);
             s2::add_header_count_sweep(&mut p, q);
+            s2::add_line_strings(&mut p, q, &all_config_lanes(), &[2]);
             s2::add_long_fields(&mut p, q, &BACKENDS, &[]);
+            s2::add_page_boundary_sweep(&mut p, q, &BACKENDS, &[]);
+            s2::add_token_grids(&mut p, q, true, true, true);
         }
         "C11" => {
             p.armed = O_PARTIAL;
@@ -399,6 +429,9 @@ pub fn plan(prop: &str, tier: Tier) -> Option<Plan> {
             s2::add_prefix_sweep(&mut p, q, &[Backend::Native]);
             s2::add_field_prefix_sweep(&mut p, q, &[Backend::Native]);
             s2::add_long_fields(&mut p, q, &[Backend::Native], &[]);
+            s2::add_page_boundary_sweep(&mut p, q, &[Backend::Native], &[]);
+            s2::add_token_grids(&mut p, q, true, true, true);
+            s2::add_line_strings(&mut p, q, &all_config_lanes(), &[2]);
             s2::add_chunk_sweeps(&mut p, q);
         }
         "C14" => {
@@ -428,7 +461,10 @@ pub fn plan(prop: &str, tier: Tier) -> Option<Plan> {
             }
             s2::add_option_templates(&mut p, q);
             s2::add_long_fields(&mut p, q, &BACKENDS, &["header-name", "header-value", "dropped-line"]);
+            s2::add_page_boundary_sweep(&mut p, q, &BACKENDS, &["header-name", "header-value", "dropped-line"]);
             s2::add_field_sweeps(&mut p, q, &BACKENDS, &["dropped-line"]);
+            s2::add_token_grids(&mut p, q, false, false, true);
+            s2::add_line_strings(&mut p, q, &all_config_lanes(), &[1, 4]);
         }
         "C15" => {
             p.armed = 0;
@@ -436,7 +472,8 @@ pub fn plan(prop: &str, tier: Tier) -> Option<Plan> {
             let dl = if q { 3 } else { 4 };
             // first clause: default-Complete nodes under all 128 configurations
             let c = Companions::AllConfigs;
-            let mut t = tree_tasks(header_trees(&[(Entry::ReqCfg, 0), (Entry::RespCfg, 0)], &[4], 1, d, 0, &c));
+            // (capacities 0, 1, 2 as well: a head that fills the array exactly)
+            let mut t = tree_tasks(header_trees(&[(Entry::ReqCfg, 0), (Entry::RespCfg, 0)], &[0, 1, 2, 4], 1, d, 0, &c));
             t.extend(tree_tasks(request_trees(&[0], 2, 1, dl + 1, 0, &c)));
             t.extend(tree_tasks(status_trees(&[0], 2, 1, dl + 1, 0, &c)));
             p.phases.push(phase(&format!("C15: default-Complete nodes × 128 configs (header D={d}, lines D={})", dl + 1), Backend::Native, t));
@@ -447,12 +484,12 @@ pub fn plan(prop: &str, tier: Tier) -> Option<Plan> {
             let req_lanes: Vec<(Entry, u8)> = req_own.iter().map(|&b| (Entry::ReqCfg, b)).collect();
             let resp_lanes: Vec<(Entry, u8)> = resp_own.iter().map(|&b| (Entry::RespCfg, b)).collect();
             let dh2 = if q { 4 } else { 6 };
-            let mut t = tree_tasks(header_trees(&req_lanes, &[2], 1, dh2, 0, &c));
-            t.extend(tree_tasks(header_trees(&resp_lanes, &[2], 1, dh2, 0, &c)));
+            let mut t = tree_tasks(header_trees(&req_lanes, &[0, 1, 2], 1, dh2, 0, &c));
+            t.extend(tree_tasks(header_trees(&resp_lanes, &[0, 1, 2], 1, dh2, 0, &c)));
             t.extend(tree_tasks(request_trees(&req_own, 2, 1, dl, 0, &c)));
             t.extend(tree_tasks(status_trees(&resp_own, 2, 1, dl, 0, &c)));
             p.phases.push(phase(&format!("C15: every node × other-kind option subsets (header D={dh2}, lines D={dl})"), Backend::Native, t));
-            p.bounds.push(format!("S1: default-Complete nodes of header Σ^≤{d} / line Σ^≤{} trees × 127 other configs; all nodes of header Σ^≤{dh2} / line Σ^≤{dl} trees × 8 request (32 response) own-kind configs × 15 (3) other-kind option subsets", dl + 1));
+            p.bounds.push(format!("S1: default-Complete nodes of header Σ^≤{d} (capacities 0, 1, 2, 4) / line Σ^≤{} trees × 127 other configs; all nodes of header Σ^≤{dh2} (capacities 0, 1, 2) / line Σ^≤{dl} trees × 8 request (32 response) own-kind configs × 15 (3) other-kind option subsets", dl + 1));
             s2::add_config_templates(&mut p, q);
             s2::add_config_sweeps(&mut p, q);
         }
@@ -508,6 +545,9 @@ pub fn plan(prop: &str, tier: Tier) -> Option<Plan> {
             s2::add_entry_sweep(&mut p, q);
             s8::add_families(&mut p, q);
             s2::add_long_fields(&mut p, q, &[Backend::Native], &[]);
+            s2::add_page_boundary_sweep(&mut p, q, &[Backend::Native], &[]);
+            s2::add_token_grids(&mut p, q, true, true, true);
+            s2::add_header_count_sweep(&mut p, q);
         }
         "C20" => {
             p.armed = O_LINEAR;
@@ -516,6 +556,9 @@ pub fn plan(prop: &str, tier: Tier) -> Option<Plan> {
             s8::add_families(&mut p, q);
             s8::add_scaling(&mut p, q);
             s2::add_long_fields(&mut p, q, &[Backend::Native], &[]);
+            s2::add_page_boundary_sweep(&mut p, q, &[Backend::Native], &[]);
+            s2::add_token_grids(&mut p, q, true, true, true);
+            s2::add_header_count_sweep(&mut p, q);
         }
         "C12" => {
             p.armed = 0;
@@ -529,6 +572,10 @@ pub fn plan(prop: &str, tier: Tier) -> Option<Plan> {
         }
         _ => return None,
     }
+    // the sweeps (S2, S3, S8: many shapes, seconds) before the symbol trees (S1: one shape family,
+    // minutes in the thorough tier): if a run hits its wall cap, what is cut off is the deepest tree
+    // level, which the report names, not a whole family of inputs
+    p.phases.sort_by_key(|ph| if ph.label.contains("S1 ") { 1 } else { 0 });
     *p.trees.lock().unwrap() = take_trees();
     Some(p)
 }
